@@ -86,3 +86,12 @@ claim("C18", "E2-enumerate", "bounded-exhaustive enumeration of asset-binary val
       "≈1.9M files (quick): 5 052 presence patterns over the 51 optional fields x names x value variants (unique per field, NaN payloads, byte-distinct colours) x embeddings x header words, plus all sequences of ≤3 specs from six shapes incl. the all-absent unnamed spec in last position. Oracles: field-wise equality incl. presence flags (f32 by bits), record walk of the image (short form iff no extended field, record extent = what its flags announce), re-serialization byte-identical.",
       "Trusted: ref_bin.rs parser and the Appendix-A bit assignment used by the record walk. 0 or 4 bytes may follow the last record.",
       "DESIGN.md §4 C18")
+
+claim("C12", "E1-bfs", "explicit-state BFS over real directories (fresh scratch tree per transition) with a top-down layer model; observers once per distinct state",
+      "For FE10/German and FE14/EnglishNA x 10 layer configurations (2-4 layers: typed-files layer + {empty, file, files+nested, empty dir, nested+compressed, directory-where-a-file-is-written, localized location}) every history up to depth 3 (4 thorough) over 24 calls (write with 2-4 payloads incl. empty/compressible/incompressible on 4 paths incl. the compressed suffix, localized and not, create_dir, write_archive, write_text_archive) is executed on a real LayeredFilesystem; after each call every layer is re-read by an independent walker (lower layers byte-identical, top = model, stored compressed files valid per the reference decoder) and in each distinct state read/exists/file_exists/directory_exists/resolve and the typed helpers are compared with the model. A shallow pass covers all 5 games x 8 languages; unsupported games / no layers at the constructor.",
+      "Trusted: the layer model in fsx.rs, ref_loc.rs, ref_lz.rs; typed pack/arc helpers are compared with mila's own codec applied to read() (differential). Texture helpers are covered under C20's containers only.",
+      "DESIGN.md §4 C12")
+claim("C13", "E1-bfs", "same explicit-state BFS over real directories; listing observers in every distinct state against an independent walker/matcher",
+      "In each of the ≈28k (quick) distinct states of the C12 exploration: list(dir, glob, localized) for 7 directories (root, nested, trailing slash, missing, a file) x 5 globs x localized/unlocalized and subdirectories() must equal the sorted de-duplicated union computed from the layer trees by an independent matcher; every listed path must exist(); a localized listing must equal the unlocalized listing of the localized directory.",
+      "Trusted: the glob family semantics implemented in fsx.rs (None/**/*, *, *.bin, **/*.txt), the read_dir walker.",
+      "DESIGN.md §4 C12/C13")
